@@ -243,29 +243,38 @@ def r11_9(chk, facts):
             ctors.setdefault((f['file'], f['l']), f)
     chk.require(len(ctors) >= 6, 'R11.9: only %d eval_context constructors with a parent found' % len(ctors))
     fam = {}
+    # the member that holds the flags, whatever it is called: the one a constructor initialises from its evaluation_flags parameter
+    FM = None
+    for f in ctors.values():
+        fl = [p for p in f['params'] if 'evaluation_flags' in f['_types'][p['t'] - 1]]
+        for i in f['inits']:
+            e = A.strip(i.get('init'), casts=True)
+            while e is not None and e.get('k') == 'CXXConstructExpr' and len(e.get('args') or []) == 1: e = A.strip(e['args'][0], casts=True)
+            if fl and e is not None and e.get('k') == 'DeclRefExpr' and e.get('id') == fl[0]['id']: FM = i.get('m')
+    chk.require(FM is not None, 'R11.9: no eval_context constructor initialises a member from an evaluation_flags parameter')
     for f in ctors.values():
         chk.analysed(f)
         fl = [p for p in f['params'] if 'evaluation_flags' in f['_types'][p['t'] - 1]]
         inits = {i.get('m'): i.get('init') for i in f['inits']}
         site = U.site(f, 'flags_ of ctor at line %s' % f['l'])
-        fi = A.strip(inits.get('flags_'), casts=True) if inits.get('flags_') is not None else None
+        fi = A.strip(inits.get(FM), casts=True) if inits.get(FM) is not None else None
         # copy-constructing the enum may wrap the reference
         while fi is not None and fi.get('k') in ('CXXConstructExpr',) and len(fi.get('args') or []) == 1: fi = A.strip(fi['args'][0], casts=True)
         if fl:
             ok = fi is not None and fi.get('k') == 'DeclRefExpr' and fi.get('id') == fl[0]['id']
             want = 'the `%s` parameter' % fl[0]['n']
         else:
-            ok = fi is not None and fi.get('k') == 'MemberExpr' and fi.get('n') == 'flags_' and (A.strip(fi.get('base'), casts=True) or {}).get('k') == 'DeclRefExpr'
-            want = 'parent.flags_'
-        if ok: chk.ok('R11.9', site, {'flags_': A.canon(inits.get('flags_'))})
-        else: chk.fail('R11.9', site, f['file'], f['l'], 'eval_context constructor at line %s initialises flags_ with `%s`, its family uses %s' % (f['l'], A.canon(inits.get('flags_')), want), None, f['q'])
+            ok = fi is not None and fi.get('k') == 'MemberExpr' and fi.get('n') == FM and (A.strip(fi.get('base'), casts=True) or {}).get('k') == 'DeclRefExpr'
+            want = 'parent.' + FM
+        if ok: chk.ok('R11.9', site, {'flags_': A.canon(inits.get(FM))})
+        else: chk.fail('R11.9', site, f['file'], f['l'], 'eval_context constructor at line %s initialises %s with `%s`, its family uses %s' % (f['l'], FM, A.canon(inits.get(FM)), want), None, f['q'])
         # the other members, with the varying second parameter abstracted
         second = f['params'][1]['id'] if len(f['params']) > 1 else None
         def shape(e):
             t = A.canon(e)
             return t.replace(f['params'][1]['n'], '<child>') if second is not None else t
         key = (bool(fl), 'validator' if second is not None and 'schema_validator' in f['_types'][f['params'][1]['t'] - 1] else 'child')
-        fam.setdefault(key, []).append((f, {m: shape(e) for m, e in inits.items() if m != 'flags_'}))
+        fam.setdefault(key, []).append((f, {m: shape(e) for m, e in inits.items() if m != FM}))
     for key, members in sorted(fam.items()):
         if len(members) < 2: continue
         ref = members[0][1]
